@@ -20,27 +20,51 @@ def available():
     return os.path.isdir(os.path.join(DEPS, "atheris"))
 
 
+def _http_corpus(corpus, job):
+    from ..gen import http as G
+    n = 0
+    if job.get("seed_corpus", True):
+        for base in G.base_sentences():
+            for follower in ("", G.FOLLOWER):
+                with open(os.path.join(corpus, "s%03d" % n), "wb") as f:
+                    f.write(b"\x00\x00" + (G.render(base) + follower).encode("latin-1"))
+                n += 1
+    return ["GET ", "POST ", "HEAD ", " HTTP/1.1\\x0d\\x0a", " HTTP/1.0\\x0d\\x0a", "\\x0d\\x0a", "\\x0d\\x0a\\x0d\\x0a", "Content-Length: ",
+            "Transfer-Encoding: chunked\\x0d\\x0a", "Connection: close\\x0d\\x0a", "Connection: keep-alive\\x0d\\x0a", "Expect: 100-continue\\x0d\\x0a",
+            "Host: h\\x0d\\x0a", "0\\x0d\\x0a\\x0d\\x0a", ";a=b", ";a=\\\"q\\\"", "chunked", "gzip", ", ", "\\x0a", "\\x0d", "\\x09", "\\x0b", "\\x00",
+            "http://h/", "*", "Content_Length: ", "Transfer_Encoding: ", "5\\x0d\\x0ahello\\x0d\\x0a"]
+
+
+def _proxy_corpus(corpus, job):
+    from ..props import c16
+    from . import proxy_codec
+    if job.get("seed_corpus", True):
+        n = 0
+        for c in list(c16.must400_table())[::2] + list(c16.degenerate_table())[::40]:
+            try:
+                raw = proxy_codec.encode(c)
+            except (UnicodeEncodeError, ValueError):
+                continue
+            with open(os.path.join(corpus, "p%04d" % n), "wb") as f:
+                f.write(raw)
+            n += 1
+    return ["for=", "host=", "proto=", "by=", "proto=https", "proto=http", ";", ", ", ",", "\\\"", "[::1]", "[", "]", ":80", ":", "192.0.2.1", "example.com",
+            "\\x0a\\x00", "\\x0a\\x01", "\\x0a\\x02", "\\x0a\\x03", "\\x0a\\x04", "\\x0a\\x05", "https", "unknown", "_hidden", "\\\\", "=", " ", "\\x09"]
+
+
 def run_fuzz_job(job, col, pid):
     if not available():
         col.labels["fuzz-skipped-atheris-missing"] += 1
         return
-    from ..gen import http as G
     work = tempfile.mkdtemp(prefix="vf-fuzz-")
     try:
         corpus = os.path.join(work, "corpus")
         os.makedirs(corpus)
-        n = 0
-        if job.get("seed_corpus", True):
-            for base in G.base_sentences():
-                for follower in ("", G.FOLLOWER):
-                    with open(os.path.join(corpus, "s%03d" % n), "wb") as f:
-                        f.write(b"\x00\x00" + (G.render(base) + follower).encode("latin-1"))
-                    n += 1
-        dict_path = os.path.join(work, "http.dict")
-        toks = ["GET ", "POST ", "HEAD ", " HTTP/1.1\\x0d\\x0a", " HTTP/1.0\\x0d\\x0a", "\\x0d\\x0a", "\\x0d\\x0a\\x0d\\x0a", "Content-Length: ",
-                "Transfer-Encoding: chunked\\x0d\\x0a", "Connection: close\\x0d\\x0a", "Connection: keep-alive\\x0d\\x0a", "Expect: 100-continue\\x0d\\x0a",
-                "Host: h\\x0d\\x0a", "0\\x0d\\x0a\\x0d\\x0a", ";a=b", ";a=\\\"q\\\"", "chunked", "gzip", ", ", "\\x0a", "\\x0d", "\\x09", "\\x0b", "\\x00",
-                "http://h/", "*", "Content_Length: ", "Transfer_Encoding: ", "5\\x0d\\x0ahello\\x0d\\x0a"]
+        dict_path = os.path.join(work, "tokens.dict")
+        if pid == "C16":
+            module, toks = "vf.fuzz.target_proxy", _proxy_corpus(corpus, job)
+        else:
+            module, toks = "vf.fuzz.target", _http_corpus(corpus, job)
         with open(dict_path, "w") as f:
             for i, t in enumerate(toks):
                 f.write('kw%d="%s"\n' % (i, t))
@@ -48,7 +72,7 @@ def run_fuzz_job(job, col, pid):
         stats = os.path.join(work, "stats.json")
         env = dict(os.environ, PYTHONPATH=DEPS + os.pathsep + ROOT, VF_FUZZ_OUT=out, VF_FUZZ_STATS=stats, VF_FUZZ_PID=pid,
                    VF_FUZZ_KNOWN=json.dumps(sorted(col.known_sigs)))
-        cmd = [sys.executable, "-m", "vf.fuzz.target", corpus, "-runs=%d" % job["runs"], "-seed=%d" % (job["seed"] % (2 ** 31 - 1) + 1),
+        cmd = [sys.executable, "-m", module, corpus, "-runs=%d" % job["runs"], "-seed=%d" % (job["seed"] % (2 ** 31 - 1) + 1),
                "-max_len=%d" % job.get("max_len", 1500), "-dict=" + dict_path, "-artifact_prefix=" + work + "/", "-print_final_stats=1"]
         if job.get("max_total_time"):
             cmd.append("-max_total_time=%d" % job["max_total_time"])
